@@ -31,7 +31,39 @@ def parts(tier):
     q = tier == "quick"
     return [Part("missed", strategy=evrun.event_case("missed", terminal_mode="none"), examples=1000 if q else 20000, timeout=300),
             Part("near_tangent", strategy=_near_tangent(), examples=300 if q else 6000, timeout=300),
-            Part("tiny_steps", strategy=_tiny_steps(), examples=150 if q else 3000, timeout=300)]
+            Part("tiny_steps", strategy=_tiny_steps(), examples=150 if q else 3000, timeout=300),
+            Part("junction", strategy=_junction(), examples=300 if q else 6000, timeout=300)]
+
+
+@st.composite
+def _junction(draw):
+    """the span is covered by two or three integrate() calls and a crossing lies 1 .. 8 ulps (of the event's value) past a
+    junction between two calls: the located root rounds onto the junction time although g there still has its old sign"""
+    method = draw(st.sampled_from(["RK4Solver", "EulerSolver", "MidpointSolver", "RK45CKSolver", "ImplicitMidpoint", "HeunsSolver"]))
+    t0 = draw(st.sampled_from([8.0, 100.0, -50.0, 1000.0, 0.0]))
+    h = draw(st.sampled_from([1 / 16.0, 1 / 4.0]))
+    N = draw(st.integers(4, 8))
+    sgn = draw(st.sampled_from([1.0, 1.0, -1.0]))
+    tf = t0 + sgn * N * h
+    ks = sorted(set(draw(st.lists(st.integers(1, N - 1), min_size=1, max_size=2))))
+    pre = [t0 + sgn * k * h for k in ks]
+    evs = []
+    for _ in range(draw(st.integers(1, 3))):
+        k = draw(st.sampled_from(ks + ks + [draw(st.integers(1, N - 1))]))
+        tj = t0 + sgn * k * h
+        m = draw(st.sampled_from([1, 1, 2, 8, 0]))
+        kind = draw(st.sampled_from(["comp", "comp", "time"]))
+        p = dict(h=kind, s=draw(st.sampled_from([1.0, 1e3, 1e-3, -1.0])), direction=draw(st.sampled_from([0, 0, 0, 1, -1])), terminal=False)
+        val = (0.25 + (tj - t0)) if kind == "comp" else tj        # y_0(t) = 0.25 + (t - t0); the value moves with sign sgn
+        c = np.float64(val)
+        for _i in range(m):
+            c = np.nextafter(c, np.float64(sgn * np.inf))
+        p["c"] = float(c)
+        if kind == "comp":
+            p["i"] = 0
+        evs.append(p)
+    return dict(part="junction", method=method, dtype="float64", prob=dict(kind="const", y0=[0.25, -1.0], v=[1.0, 0.5]), t0=t0, tf=tf, dt=h,
+                rtol=1e-6, atol=1e-6, dense=draw(st.booleans()), events=evs, pre_targets=pre)
 
 
 @st.composite
